@@ -468,7 +468,9 @@ func (t *streamableHTTPClientTransport) handleSSEResponse(
 
 			// Process event ID
 			if strings.HasPrefix(line, "id:") {
-				t.lastEventID = strings.TrimSpace(strings.TrimPrefix(line, "id:"))
+				if id := strings.TrimSpace(strings.TrimPrefix(line, "id:")); validLastEventID(id) {
+					t.lastEventID = id
+				}
 				continue
 			}
 
@@ -749,7 +751,11 @@ func (t *streamableHTTPClientTransport) handleGetSSEEvents(ctx context.Context, 
 			if strings.HasPrefix(line, "id:") {
 				eventID = strings.TrimPrefix(line, "id:")
 				eventID = strings.TrimSpace(eventID)
-				t.lastEventID = eventID
+				if validLastEventID(eventID) {
+					t.lastEventID = eventID
+				} else {
+					eventID = "" // an id that cannot travel in a header is ignored (WHATWG: ids containing NUL are ignored)
+				}
 			} else if strings.HasPrefix(line, "data:") {
 				data := strings.TrimPrefix(line, "data:")
 				data = strings.TrimSpace(data)
@@ -763,7 +769,9 @@ func (t *streamableHTTPClientTransport) handleGetSSEEvents(ctx context.Context, 
 // Process SSE event.
 func (t *streamableHTTPClientTransport) processSSEEvent(eventID, eventData string) {
 	// Store the last event ID for connection recovery.
-	t.lastEventID = eventID
+	if validLastEventID(eventID) {
+		t.lastEventID = eventID
+	}
 
 	// Skip empty events.
 	if eventData == "" {
@@ -1030,4 +1038,15 @@ func (t *streamableHTTPClientTransport) establishGetSSEConnection(ctx context.Co
 	}
 
 	t.establishGetSSE(ctx)
+}
+
+// validLastEventID reports whether an SSE event id can be echoed in the Last-Event-ID header:
+// no control characters other than tab, no DEL (net/http refuses to send such a header value).
+func validLastEventID(id string) bool {
+	for i := 0; i < len(id); i++ {
+		if b := id[i]; (b < 0x20 && b != '\t') || b == 0x7f {
+			return false
+		}
+	}
+	return true
 }
